@@ -172,6 +172,7 @@ def install(ex, st, rx, tagbox):
 
     def inf_retis(input_mat, locks):
         tagbox[0] += 1
+        effects["prob_for"] = (np.asarray(input_mat, dtype=float).tolist(), [int(x) for x in locks])
         return contract_P(ex, [[float(x) for x in row] for row in np.asarray(input_mat, dtype=float)], [int(x) for x in locks], tagbox[0])
     st.inf_retis = inf_retis
     st.write_toml = lambda: effects.__setitem__("toml", effects["toml"] + 1)
